@@ -173,6 +173,17 @@ func serverCatalogue(c *core.Ctx, kr *keyring) []sCase {
 			add(s)
 		}
 	}
+	// --- where the maximum age comes from: TokenMaxAge > SEC_TOKEN_MAX_AGE (seconds) > default
+	for _, v := range envAgeCases {
+		w := kr.w0
+		w.MaxAge, w.Env = v.cfg, v.env
+		s := base(fmt.Sprintf("env-%q-cfg%d-age%d", v.env, v.cfg, v.age))
+		s.W, s.Tok.IatOff, s.Tok.ExpOff = w, -v.age, 9000
+		if ma := w.maxAge(); ma > 0 && v.age > ma {
+			s.Expect = 0
+		}
+		add(s)
+	}
 	for _, v := range []struct {
 		name, pl string
 		exp      int
@@ -359,6 +370,20 @@ func denseFamily(name string) string {
 	return ""
 }
 
+// single deviations in the source of the maximum age: the age is placed on both sides
+// of the environment value, of the config value and of the default
+var envAgeCases = []struct {
+	env string
+	cfg int
+	age int64
+}{
+	{"600", 0, 599}, {"600", 0, 600}, {"600", 0, 601}, {"600", 0, 2000}, {"600", 0, 3600}, {"600", 0, 3601},
+	{"600s", 0, 2000}, {"600s", 0, 3600}, {"600s", 0, 3601}, {"abc", 0, 3600}, {"abc", 0, 3601},
+	{"0", 0, 5000}, {"-5", 0, 5000}, {"600", 300, 300}, {"600", 300, 301}, {"600", 300, 599}, {"600", 300, 2000},
+	{"1m30", 0, 90}, {"1m30", 0, 91}, {"1.5", 0, 1}, {"1.5", 0, 2}, {"7200", 0, 3601}, {"7200", 0, 7200}, {"7200", 0, 7201},
+	{" 600", 0, 2000}, {"+600", 0, 601}, {"10m", 0, 601},
+}
+
 func boolInt(b bool, t, f int) int {
 	if b {
 		return t
@@ -500,7 +525,7 @@ func gen(c *core.Ctx) error {
 	c.Rule("one deviation per run from a valid three-message TOKEN exchange (server role and client role over net.Pipe), " +
 		"plus direct calls of VerifyIDToken / validateTokenAndDeriveKeys / loadSingleToken / validateTokenTiming / loadSigningKey " +
 		"and of the modelled library pieces (base64url, TrimSpace); non-trivial = distinct (role, deviation, outcome, message-2/3 shape)")
-	c.Assume("environment variables SEC_TOKEN_MAX_AGE, SEC_TOKEN_POOL_SIGNING_KEY_FILE, SEC_PASSWORD_DIRECTORY are unset (config fields decide)")
+	c.Assume("environment variables SEC_TOKEN_POOL_SIGNING_KEY_FILE, SEC_PASSWORD_DIRECTORY are unset; SEC_TOKEN_MAX_AGE is set per case by the harness")
 	c.Assume("encoding/json and the JSON number -> float64 -> int64 conversion (amd64) are parameters of the model, supplied per case")
 	c.Assume("HKDF-SHA256 / HMAC-SHA256 / HMAC-SHA1 behave as the ideal functions of Lib/SymC11.v; their use (inputs, salts, order) is checked against an independent reference")
 	kr := newKeyring(c)
